@@ -105,7 +105,7 @@ int main(int argc, char** argv) {
         vh::runProp("sessions", n * 7 / 10, 3.0, [&](Choices& c) {
             sess::Session s = sess::genSession(c, gOpts, cfg);
             runSession("sessions", s, st, 1);
-        });
+        }, -1, 10);
         sess::GenCfg flood = cfg;
         flood.floodIsready = true; flood.maxCmds = 120;
         vh::runProp("isready-flood", n - n * 7 / 10, 4.0, [&](Choices& c) {
